@@ -138,16 +138,42 @@ def no_lost_wakeup_any_command : Prop :=
     (run k (init cfg) evs).owed = false → (∃ q ∈ (run k (init cfg) evs).core.d.qs, startableAny q) →
     (run k (init cfg) evs).awake = true
 
-/-- **Why "every command type has a handler" is needed.** `FlushCommand` is exported and
-    `Driver.Enqueue` accepts it, but `processOneCommand` hands it to the middlewares and none
-    processes it: the tick reports no progress with the command at the head of its queue, the Noop
-    behind it never runs. Replayed on the real driver (oracle `C12.driver.unhandled-command`). -/
-theorem no_lost_wakeup_any_command_refuted : ¬ no_lost_wakeup_any_command := by
+/-- **Why "every command type has a handler" is needed — and what the driver did before the repair.**
+    `FlushCommand` is exported and `Driver.Enqueue` accepts it, but `processOneCommand` handed it to the
+    middlewares and none processed it (`Cmd.unhandled`): the tick reported no progress with the command
+    at the head of its queue, the Noop behind it never ran. It was replayed on the real driver (oracle
+    `C12.driver.unhandled-command`) and is repaired: `FlushCommand` has a handler (`Cmd.fl`,
+    `flush_command_completes`, `command_handlers_match_source`: no command type is left without one) and
+    a command nobody processes panics naming its type. -/
+theorem no_lost_wakeup_any_command_before_fix_refuted : ¬ no_lost_wakeup_any_command := by
   intro h
   have := h {} { ctxs := [0] } [.enq 0 .unhandled, .enq 0 .noop, .kick, .tick, .tick]
     (by intro ev hev m; simp at hev; rcases hev with rfl | rfl | rfl | rfl | rfl <;> simp)
     (by decide) ⟨{ cmds := [.unhandled, .noop] }, by decide, by decide⟩
   exact absurd this (by decide)
+
+/-- **The repaired `FlushCommand`** (2 GPUs): the tick that starts it puts one `FlushReq` per GPU into
+    `requestsToSend` and marks the queue running; once both are answered the command is dequeued, the Noop
+    behind it runs, and the driver goes to sleep with the queue empty — the trace on which the driver used
+    to wedge (`no_lost_wakeup_any_command_before_fix_refuted`). -/
+theorem flush_command_completes :
+    let evs : List Ev := [.enq 0 .fl, .enq 0 .noop, .kick, .tick]
+    let s1 := run {} (init { nGpus := 2, ctxs := [0] }) evs
+    let s2 := run {} (init { nGpus := 2, ctxs := [0] })
+      (evs ++ [.tick, .tick, .retrieveG, .retrieveG, .answer 0, .answer 0, .tick, .tick, .tick, .tick])
+    (∀ ev ∈ evs, ev.legit = true) ∧
+    s1.core.d.qs.map (fun q => (q.cmds, q.running, q.left)) = [([.fl, .noop], true, 2)] ∧
+    s1.core.d.toSend = [.flush 0, .flush 0] ∧
+    s2.core.d.qs.map (fun q => (q.cmds, q.running)) = [([], false)] ∧ s2.awake = false := by
+  decide
+
+/-- without a GPU the `FlushCommand` completes in the tick that starts it (`completeCommandIfDone` at the end of
+    `processFlushCommand`) -/
+theorem flush_command_without_gpu_completes (d : D) (i : Nat) (q : Q) (cs : List Cmd)
+    (hc : q.cmds = .fl :: cs) (hr : q.running = false) (hg : d.nGpus = 0) :
+    (procQ d i q).1 = { q with cmds := cs, running := false, left := 0 } ∧ (procQ d i q).2.2 = true := by
+  unfold procQ
+  simp [hc, hr, hg]
 
 /-- **Why "no signal is owed" is needed** (and what `C12.K` is for): `Driver.Enqueue` does not wake
     the driver, so right after an enqueue the driver sleeps with a runnable command; the wake-up
@@ -214,8 +240,9 @@ theorem handlers_always_report_progress :
     Gen.C12Drv.handlerReturns.length = returnCaseNames.length + generalRspNames.length + 1 := by
   decide
 
-/-- the command types with a handler are the ones the model starts; the only type without one is
-    the one `Cmd.unhandled` stands for (`no_lost_wakeup_any_command_refuted`) -/
+/-- the command types with a handler are the ones the model starts (`FlushCommand` = `Cmd.fl` since the repair);
+    no command type is without one (`unhandledCommandNames = []`; before the repair: `FlushCommand`,
+    `no_lost_wakeup_any_command_before_fix_refuted`) -/
 theorem command_handlers_match_source :
     handledCommandNames = Gen.C12Drv.handledCommandTypes ∧
     Gen.C12Drv.commandTypes.filter (fun t => !Gen.C12Drv.handledCommandTypes.contains t) = unhandledCommandNames := by
